@@ -404,9 +404,11 @@ class Header(Field):
                 return 5
 
         else:
-            # old-format length
-            ##TODO: what if _llen needs to be (re)computed?
-            return self._llen
+            # old-format length; widen the length field if the length no longer fits in it
+            llen = self._llen
+            while 0 < llen < 4 and self.length >= (1 << (8 * llen)):
+                llen *= 2
+            return llen
 
     @llen.register(int)
     def llen_int(self, val):
